@@ -135,6 +135,8 @@ class Handler(Contract):
                 if v == "array":
                     v = N.make_unyt_array(it, name)
                     self._arrays[name] = v
+                elif v == "bare":
+                    v = N.make_ndarray(it, name)
                 return v
             if name in sp["arrays"]:
                 v = N.make_unyt_array(it, name)
@@ -433,6 +435,29 @@ class Handler(Contract):
         return z3.BoolVal(False)          # reachability of a normal return
 
 
+def _histogram_spec(h):
+    """(counts, edges): counts are numbers per bin, weighted sums with weights=, divided by the bin
+    width (the sample's unit) with density=True"""
+    counts = {}
+    if h.flags.get("weights") == "array":
+        counts["weights"] = 1
+    if h.flags.get("density"):
+        counts["a"] = -1
+    return ("tuple", [counts if counts else "bare", {"a": 1}])
+
+
+def _histogram2d_spec(h):
+    """(counts, xedges, yedges): see spec/numpy_algebra.py"""
+    unitful = ["x"] + (["y"] if h.flags.get("y") == "array" else [])
+    counts = {}
+    if h.flags.get("weights") == "array":
+        counts["weights"] = 1
+    if h.flags.get("density"):
+        for c in unitful:
+            counts[c] = -1
+    return ("tuple", [counts if counts else "bare", {"x": 1}, {"y": 1} if "y" in unitful else "bare"])
+
+
 def _det_order(it, h):
     """order of the (stack of) square matrices: a.shape[-1]"""
     a = h._arrays["a"]
@@ -464,8 +489,8 @@ SPECIAL = {
     "trapezoid": lambda h: {"y": 1, "x": 1} if h.flags.get("x") == "array" else (
         {"y": 1, "dx": 1} if h.flags.get("dx") == "array" else {"y": 1}),
     "einsum": lambda h: {"operands*": 1},
-    "det": lambda h: {"a": _det_order}, "prod": lambda h: None, "histogram": lambda h: None,
-    "histogram2d": lambda h: None, "histogramdd": lambda h: None, "logspace": lambda h: None,
+    "det": lambda h: {"a": _det_order}, "prod": lambda h: None, "histogram": lambda h: _histogram_spec(h),
+    "histogram2d": lambda h: _histogram2d_spec(h), "histogramdd": lambda h: None, "logspace": lambda h: None,
     "always-raises": lambda h: None, "higher-order": lambda h: None,
 }
 
@@ -474,8 +499,7 @@ UNDECIDED_BY_DESIGN = {
     "apply_over_axes": "higher-order: calls the user's function, not numpy's implementation",
     "cumprod": "always raises", "cumulative_prod": "always raises",
     "prod": "exponent depends on the reduced size",
-    "histogram": "unit of the counts depends on density / weights flags",
-    "histogram2d": "idem", "histogramdd": "idem",
+    "histogramdd": "idem",
     "logspace": "no homogeneity degree exists for a unit-carrying base",
 }
 
